@@ -23,7 +23,9 @@ EXPLANATION = (
     "inputs (map_over, clone lists) are rewritten with the same mapping in with_inputs; (R5) one batch id per rename call, obtained outside the "
     "per-entry loop; (R6) name-space discipline by qualifier inference: no membership test, subscript, .get, equality or name-taking method call "
     "combines a wrapper-space name with inner-graph keys/objects (or vice versa) without a translator; (R7) a reverse rename map (which keeps "
-    "abandoned intermediate names) is inverted only when restricted to the node's current names."
+    "abandoned intermediate names) is inverted only when restricted to the node's current names; (R8) the copy helper of every concrete node "
+    "class gives the derived node its own history list (renames are appended in place, so a shared list would let a later rename of one node "
+    "re-map the names of another)."
 )
 NOT_DECIDED = "That a consistently alpha-renamed graph computes equal values (a statement about runs); rename validation errors (unknown/duplicate names)."
 
@@ -53,6 +55,7 @@ def run(ctx) -> None:
     rep.rule("C06.R5", "one batch id per rename call", floor=1)
     rep.rule("C06.R6", "name-space discipline around GraphNode (qualifier inference)", floor=12)
     rep.rule("C06.R7", "reverse rename maps are inverted only over current names", floor=1)
+    rep.rule("C06.R8", "every derived node owns its rename history (no list shared with the node it was derived from)", floor=4)
 
     brm = db.func("nodes._rename.build_reverse_rename_map")
     bfm = db.func("nodes._callable._build_forward_rename_map")
@@ -193,6 +196,11 @@ def run(ctx) -> None:
     check_qualifiers(ctx, "C06.R6")
     check_executor_returns(ctx, "C06.R3")
 
+    # ---- R8 ---------------------------------------------------------------------
+    from .c07 import check_copy_freshness
+
+    check_copy_freshness(ctx, "C06.R8", only_attrs=("_rename_history",))
+
     # ---- R7 ---------------------------------------------------------------------
     n_inv = 0
     for f in db.all_funcs():
@@ -315,5 +323,6 @@ VARIANTS = [
     Variant("bound-leaks-inner-names", IS, replace_once("            for outer_name in node.inputs:\n                key = node._resolve_original_input_name(outer_name)\n                if key in inner_bound and outer_name not in all_bound:\n                    all_bound[outer_name] = inner_bound[key]", "            for key, value in inner_bound.items():\n                if key not in all_bound:\n                    all_bound[key] = value"), {"C06.R6"}),
     Variant("has-default-unresolved", GN, replace_once("        # Check if bound in inner graph\n        if original_param in self._graph.inputs.bound:\n            return True\n        # Check if any inner node has a default", "        # Check if bound in inner graph\n        if param in self._graph.inputs.bound:\n            return True\n        # Check if any inner node has a default"), {"C06.R6"}),
     Variant("value-source-inner-bound-by-outer-name", HP, replace_once("        if original_param in node._graph.inputs.bound:\n            return (ValueSource.BOUND, node._graph.inputs.bound[original_param])", "        if param in node._graph.inputs.bound:\n            return (ValueSource.BOUND, node._graph.inputs.bound[param])"), {"C06.R6"}),
+    Variant("graphnode-copy-plain", GN, replace_once("        new = copy.copy(self)\n        new._rename_history = list(self._rename_history)\n", "        new = copy.copy(self)\n"), {"C06.R8"}),
     Variant("twin-resolver-local-alias", GN, replace_once("        reverse_map = build_reverse_rename_map(self._rename_history, \"inputs\")\n        return reverse_map.get(param, param)", "        rmap = build_reverse_rename_map(self._rename_history, \"inputs\")\n        original = rmap.get(param, param)\n        return original"), set()),
 ]
